@@ -900,6 +900,8 @@ func (d *denum) run(stmts []ast.Stmt, in []dstate) []dstate {
 		}
 		switch s := st.(type) {
 		case *ast.ReturnStmt:
+			// a bare return in a function with named results returns those
+			s = explicitReturn(d.info, s)
 			// `return <boolean expression>` is `if <expr> { return true }; return false`
 			if len(s.Results) == 1 {
 				if tv, ok := d.info.Types[s.Results[0]]; ok && tv.Value == nil && tv.Type != nil && tv.Type.String() == "bool" {
@@ -1431,4 +1433,61 @@ func (d *denum) once(loop ast.Stmt, body *ast.BlockStmt, in []dstate) []dstate {
 	out = append(out, after...)
 	out = append(out, exits...)
 	return d.havoc(loop, out)
+}
+
+// loadedSyntax: the files of the module packages loaded (set by Ctx.load), for looking up the function a statement is in.
+var loadedSyntax []*ast.File
+var bareReturns = map[*ast.ReturnStmt]*ast.ReturnStmt{}
+
+// explicitReturn: `return` in a function with named results is `return r1, r2` (one synthetic statement per bare
+// return, its identifiers resolved like written ones).
+func explicitReturn(info *types.Info, s *ast.ReturnStmt) *ast.ReturnStmt {
+	if len(s.Results) != 0 {
+		return s
+	}
+	if r, ok := bareReturns[s]; ok {
+		return r
+	}
+	bareReturns[s] = s
+	for _, f := range loadedSyntax {
+		if s.Pos() < f.Pos() || s.Pos() >= f.End() {
+			continue
+		}
+		var ft *ast.FuncType
+		ast.Inspect(f, func(n ast.Node) bool {
+			if n == nil || s.Pos() < n.Pos() || s.Pos() >= n.End() {
+				return n != nil && false
+			}
+			switch x := n.(type) {
+			case *ast.FuncDecl:
+				ft = x.Type
+			case *ast.FuncLit:
+				ft = x.Type
+			}
+			return true
+		})
+		if ft == nil || ft.Results == nil {
+			return s
+		}
+		var res []ast.Expr
+		for _, fl := range ft.Results.List {
+			for _, nm := range fl.Names {
+				ob := info.Defs[nm]
+				if ob == nil {
+					return s
+				}
+				id := &ast.Ident{NamePos: s.Return, Name: nm.Name}
+				info.Uses[id] = ob
+				info.Types[id] = types.TypeAndValue{Type: ob.Type()}
+				res = append(res, id)
+			}
+		}
+		if len(res) == 0 {
+			return s
+		}
+		r := &ast.ReturnStmt{Return: s.Return, Results: res}
+		bareReturns[s] = r
+		return r
+	}
+	return s
 }
